@@ -35,7 +35,10 @@ func buildInit(name string) (initer, randSpec, bool) {
 			return initializers.NewFull(nil), randSpec{0, 0, 0}, true
 		}
 		v := vrt.Float("v")
-		return initializers.NewFull(&initializers.FullConfig{Value: v}), randSpec{0, v, 0}, true
+		cfg := &initializers.FullConfig{Value: v}
+		c := initializers.NewFull(cfg)
+		cfg.Value = vrt.Float("v_later") // the caller's struct changes after construction: "configured" means configured then
+		return c, randSpec{0, v, 0}, true
 	case "Uniform":
 		if nilConf {
 			c, err := initializers.NewUniform(nil)
@@ -44,8 +47,10 @@ func buildInit(name string) (initer, randSpec, bool) {
 		}
 		lo, hi := vrt.Float("lo"), vrt.Float("hi")
 		vrt.Assume(lo < hi)
-		c, err := initializers.NewUniform(&initializers.UniformConfig{Lower: lo, Upper: hi})
+		cfg := &initializers.UniformConfig{Lower: lo, Upper: hi}
+		c, err := initializers.NewUniform(cfg)
 		vrt.Assert("valid config accepted", err == nil)
+		cfg.Lower, cfg.Upper = vrt.Float("lo_later"), vrt.Float("hi_later")
 		return c, randSpec{1, lo, hi}, err == nil
 	case "Normal":
 		if nilConf {
@@ -55,30 +60,40 @@ func buildInit(name string) (initer, randSpec, bool) {
 		}
 		mu, sd := vrt.Float("mu"), vrt.Float("sd")
 		vrt.Assume(sd > 0)
-		c, err := initializers.NewNormal(&initializers.NormalConfig{Mean: mu, StdDev: sd})
+		cfg := &initializers.NormalConfig{Mean: mu, StdDev: sd}
+		c, err := initializers.NewNormal(cfg)
 		vrt.Assert("valid config accepted", err == nil)
+		cfg.Mean, cfg.StdDev = vrt.Float("mu_later"), vrt.Float("sd_later")
 		return c, randSpec{2, mu, sd}, err == nil
 	}
 	fanIn := vrt.Int("fanIn", 1, 64)
 	fanOut := vrt.Int("fanOut", 1, 64)
 	switch name {
 	case "HeUniform":
-		c, err := initializers.NewHeUniform(&initializers.HeUniformConfig{FanIn: fanIn})
+		cfg := &initializers.HeUniformConfig{FanIn: fanIn}
+		c, err := initializers.NewHeUniform(cfg)
 		vrt.Assert("valid config accepted", err == nil)
+		cfg.FanIn = fanOut
 		r := math.Sqrt(6 / float64(fanIn))
 		return c, randSpec{1, -r, r}, err == nil
 	case "HeNormal":
-		c, err := initializers.NewHeNormal(&initializers.HeNormalConfig{FanIn: fanIn})
+		cfg := &initializers.HeNormalConfig{FanIn: fanIn}
+		c, err := initializers.NewHeNormal(cfg)
 		vrt.Assert("valid config accepted", err == nil)
+		cfg.FanIn = fanOut
 		return c, randSpec{2, 0, math.Sqrt(2 / float64(fanIn))}, err == nil
 	case "XavierUniform":
-		c, err := initializers.NewXavierUniform(&initializers.XavierUniformConfig{FanIn: fanIn, FanOut: fanOut})
+		cfg := &initializers.XavierUniformConfig{FanIn: fanIn, FanOut: fanOut}
+		c, err := initializers.NewXavierUniform(cfg)
 		vrt.Assert("valid config accepted", err == nil)
+		cfg.FanIn, cfg.FanOut = fanOut+1, fanIn+2
 		r := math.Sqrt(6 / float64(fanIn+fanOut))
 		return c, randSpec{1, -r, r}, err == nil
 	case "XavierNormal":
-		c, err := initializers.NewXavierNormal(&initializers.XavierNormalConfig{FanIn: fanIn, FanOut: fanOut})
+		cfg := &initializers.XavierNormalConfig{FanIn: fanIn, FanOut: fanOut}
+		c, err := initializers.NewXavierNormal(cfg)
 		vrt.Assert("valid config accepted", err == nil)
+		cfg.FanIn, cfg.FanOut = fanOut+1, fanIn+2
 		return c, randSpec{2, 0, math.Sqrt(2 / float64(fanIn+fanOut))}, err == nil
 	}
 	vrt.Assert("harness: unknown initializer", false)
